@@ -191,6 +191,38 @@ def run(ctx):
             ctx.count('obs.invalid_references_rejected')
         except Exception as exc:  # noqa: BLE001
             ctx.violation(f'c15.invalid_reference_wrong_exception.{type(exc).__name__}', f'{text}: {exc!r}', {'statement': text})
+    # an untyped first pivot column holding equal numbers of different types (1 beside 1.0, TRUE beside 1): one row per VALUE
+    from decimal import Decimal as D_
+    from ..model import ModelTable
+    for i in range(ctx.pick(6, 60)):
+        mrng = ctx.rng('mixed-types', i)
+        pool = [1, D_('1'), D_('1.0'), 2, D_('2'), 3, D_('3.5'), 4, D_('4.00'), 5, True, 0, D_('0'), False, None]
+        rows = [(mrng.choice(pool), mrng.choice(['a', 'b', 'c', '']), mrng.randint(1, 9)) for _ in range(mrng.randint(5, 14))]
+        mconn = engine.connection()
+        mconn.tables['m'] = engine.harness_table(ModelTable('m', [('n', object), ('k', str), ('v', int)], rows))
+        text = 'SELECT n, k, sum(v) AS s FROM #m GROUP BY n, k PIVOT BY n, k'
+        case = {'statement': text, 'rows': show_rows(rows, 20)}
+        try:
+            pn, pt, pr = engine.run(mconn, text)
+            un, ut, ur = engine.run(mconn, 'SELECT n, k, sum(v) AS s FROM #m GROUP BY n, k')
+        except Exception as exc:  # noqa: BLE001
+            ctx.violation('c15.pivot_raised.mixed_types', f'{text}: {exc!r}', case)
+            continue
+        keys2 = sorted({r[1] for r in ur})
+        cells = {}
+        for r in ur:
+            cells[(r[0], r[1])] = r[2]                      # (1, 'a') and (Decimal('1'), 'a') are one key
+        firsts = []
+        for r in ur:
+            if not any(r[0] == f and (r[0] is None) == (f is None) for f in firsts):
+                firsts.append(r[0])
+        firsts.sort(key=lambda v: (v is not None, v if v is not None else 0))
+        exp_rows = [tuple([f] + [cells.get((f, k)) for k in keys2]) for f in firsts]
+        ctx.case((text, repr(rows)), len(firsts) >= 2)
+        ctx.count('obs.mixed_type_pivot_cases')
+        got = [tuple(r) for r in pr]
+        if pn != ['n/k'] + [str(k) for k in keys2] or len(got) != len(exp_rows) or any(g != e for g, e in zip(got, exp_rows)):
+            ctx.violation('c15.mixed_type_first_column', f'{text}: pivoted rows {show_rows(got, 8)} under {pn}; the un-pivoted result reshapes to {show_rows(exp_rows, 8)}', case)
     # ledger: account x year x currency
     for i in range(ctx.pick(2, 20)):
         led = ledgers.gen_ledger(ctx.rng('ledger', i), ntxn=12)
